@@ -413,9 +413,15 @@ class XsdSimpleType(XsdType, ValidationMixin[str | bytes, DecodedValueType]):
     @schema_cache
     def is_derived(self, other: BaseXsdType, derivation: str | None = None) -> bool:
         if derivation:
-            if derivation == self.derivation:
+            # Builtin types don't have a derivation attribute but the
+            # ones with a base type are derived by restriction.
+            self_derivation = self.derivation
+            if self_derivation is None and self.base_type is not None:
+                self_derivation = 'restriction'
+
+            if derivation == self_derivation:
                 derivation = None  # derivation mode checked
-            elif self.derivation:
+            elif self_derivation:
                 return False
 
         if other.ref is not None:
